@@ -44,9 +44,10 @@ RULE = ('per configuration (key type, key universe, source in fresh/literal/chai
         'non-trivial = distinct (configuration, pre-state, operation) where the operation writes, or reads a key that is '
         'bound on chain or was written before')
 BOUND = {'quick': 'key type int: |K|=2 and |K|=3, on-chain values {absent,2}, literal values {absent,0,1}, all 4 sources, '
-                  'closure (reached at depth <= 7; caps: depth 8, 300 states per configuration)',
-         'thorough': 'key types int, string, pair int int, bytes, address: |K|=3, on-chain values {absent,0,2}, '
-                     'literal values {absent,0,1}, all 4 sources, closure (reached at depth <= 7; caps: depth 8, 300 states per configuration)'}
+                  'closure of the state graph (reached at depth <= 2|K|+1; caps: depth 8, 5*4^|K| states per configuration)',
+         'thorough': '12 key types (int, string, pair, bytes, address, nat, timestamp, key_hash, option, or, 3-comb, chain_id) with '
+                     '|K|=3, on-chain values {absent,0,2}; int keys with |K|=4, on-chain values {absent,2}; literal values '
+                     '{absent,0,1}; all 4 sources; closure (caps: depth 10, 5*4^|K| states per configuration)'}
 ASSUMPTIONS = ['the canonical state (items, removed_keys as a set, ptr) determines the future behaviour of a BigMapType whose '
                'context tables are fixed per run; the order of removed_keys (hash order) only permutes diff entries',
                'lazy diffs are read as Tezos applies them: entries in order, a later entry for the same key wins; two '
@@ -57,16 +58,22 @@ LEVEL_TEXT = ('every history over a 3-key universe reaches one of finitely many 
               'every split of the keys between chain and local layer, so within the alphabet the agreement with the layered '
               'dictionary is decided, not sampled')
 
-STATE_CAP = 300       # per configuration; a correct implementation has at most 4^|K| = 64 states
 CHAIN_ID = 7          # id of the on-chain big_map
 VT = ('nat',)
 VALS = [0, 1]
 KEYTYPES = {
-    'int': (('int',), [0, 1, -1]),
+    'int': (('int',), [0, 1, -1, 64]),
     'string': (('string',), ['', 'a', 'B']),
     'pair': (('pair', ('int',), ('int',)), [(0, 0), (0, 1), (1, -1)]),
     'bytes': (('bytes',), [b'', b'\x00', b'\xff']),
     'address': (('address',), [('tz1', T.H0, ''), ('KT1', T.H0, ''), ('KT1', T.H0, 'a')]),
+    'nat': (('nat',), [0, 1, 128]),
+    'timestamp': (('timestamp',), [0, -1, 1]),
+    'key_hash': (('key_hash',), [('tz1', T.H0), ('tz2', T.H0), ('tz1', T.HF)]),
+    'option': (('option', ('int',)), [None, ('Some', 0), ('Some', -1)]),
+    'or': (('or', ('int',), ('string',)), [('L', 0), ('R', ''), ('R', 'a')]),
+    'pair3': (('pair', ('string',), ('pair', ('bytes',), ('bool',))), [('', (b'', False)), ('', (b'', True)), ('a', (b'\x00', False))]),
+    'chain_id': (('chain_id',), [bytes(4), b'\xff' * 4, b'\x7a\x06\xa7\x70']),
 }
 OPTS = [None] + [('Some', v) for v in VALS]
 
@@ -90,8 +97,8 @@ def configs(tier):
         plan = [('int', 2, [None, 2]), ('int', 3, [None, 2])]
         cap = 8
     else:
-        plan = [(kt, 3, [None, 0, 2]) for kt in KEYTYPES]
-        cap = 8
+        plan = [(kt, 3, [None, 0, 2]) for kt in KEYTYPES] + [('int', 4, [None, 2])]
+        cap = 10
     for ktname, nk, chain_vals in plan:
         out.append({'kt': ktname, 'nk': nk, 'source': 'fresh', 'content': [None] * nk, 'cap': cap})
         for content in itertools.product([None] + VALS, repeat=nk):
@@ -434,7 +441,7 @@ def explore(cfg, r: Result, tier):
     nstates = 1
     last_case = case0
     while frontier:
-        if depth >= cfg['cap'] or nstates > STATE_CAP:
+        if depth >= cfg['cap'] or nstates > 5 * 4 ** cfg['nk']:   # a correct implementation has at most 4^|K| states
             r.cap(f'cap reached (depth {depth}, {nstates} states) with unexpanded states: configuration {cfg_key}')
             break
         depth += 1
